@@ -215,11 +215,36 @@ func RunKV(sc *KVScenario, log *EventLog, workDir string) error {
 	defer r.srv.Close()
 	lastFileOf := map[int]string{} // key -> file whose content changed at its last Set (found by directory diff)
 	lastVal := map[int]int{}
+	cleanOf := map[int][]byte{}      // key -> the bytes of that file as the store wrote them
+	rtClean := map[string][]byte{}   // files the transport wrote last -> their bytes as written
+	sameBytes := func(f string, want []byte) bool {
+		b, err := os.ReadFile(f)
+		return err == nil && bytes.Equal(b, want)
+	}
+	// which keys' files (and the transport's files) are, byte for byte, what the store wrote: two modifications can cancel out
+	cleanState := func(ev M) {
+		ck := []int{}
+		for k, f := range lastFileOf {
+			if want, ok := cleanOf[k]; ok && sameBytes(f, want) {
+				ck = append(ck, k)
+			}
+		}
+		sort.Ints(ck)
+		ev["cleank"] = ck
+		rc := 1
+		for f, want := range rtClean {
+			if !sameBytes(f, want) {
+				rc = 0
+			}
+		}
+		ev["rtclean"] = rc
+	}
 
 	for i := range sc.Ops {
 		op := &sc.Ops[i]
 		ev := M{"ev": "kv", "op": op.Op, "k": op.K, "v": canon[op.V], "p": op.P, "ok": 0, "nx": 0, "rv": -1, "torn": 0, "keys": []int{},
-			"unknown": 0, "alias": 0, "st": 0, "plain": 0, "samect": 0, "how": op.How, "k2": op.K2, "errs": "", "expect": 0, "cut": op.Cut}
+			"unknown": 0, "alias": 0, "st": 0, "plain": 0, "samect": 0, "how": op.How, "k2": op.K2, "errs": "", "expect": 0, "cut": op.Cut,
+			"cleank": []int{}, "rtclean": 1}
 		switch op.Op {
 		case "set":
 			before := snapshotFiles(r.files())
@@ -238,6 +263,11 @@ func RunKV(sc *KVScenario, log *EventLog, workDir string) error {
 				f, nchanged := changedFile(before, after)
 				if f != "" {
 					lastFileOf[op.K] = f
+				}
+				if f2 := lastFileOf[op.K]; f2 != "" && err == nil {
+					if b, e := os.ReadFile(f2); e == nil {
+						cleanOf[op.K] = b
+					}
 				}
 				// the same value written again under the same key must give a different ciphertext
 				if pv, ok := lastVal[op.K]; ok && pv == op.V && err == nil && sc.Backend == "fsenc" && nchanged == 0 {
@@ -336,6 +366,7 @@ func RunKV(sc *KVScenario, log *EventLog, workDir string) error {
 				}
 			}
 			ev["ok"] = b2i(os.WriteFile(f, b, 0o644) == nil)
+			cleanState(ev)
 		case "tamper_all":
 			// every file under the store directory is damaged
 			n := 0
@@ -362,6 +393,7 @@ func RunKV(sc *KVScenario, log *EventLog, workDir string) error {
 			}
 			ev["ok"] = 1
 			ev["st"] = n
+			cleanState(ev)
 		case "rt_store", "rt_get":
 			// the transport on top of the store as it is open now: a cacheable response whose body is the value
 			// (rt_store) or a response nobody has seen before (rt_get: value id 100 + position of the operation)
@@ -401,8 +433,19 @@ func RunKV(sc *KVScenario, log *EventLog, workDir string) error {
 				fmt.Sscanf(string(got), "FRESH-BODY-%d-", &j)
 				ev["rv"] = 100 + j
 			}
-			if op.Op == "rt_store" && sc.Backend == "fsenc" {
-				ev["plain"] = plainOnDisk(changedFiles(before, r.files()), r.vals[op.V])
+			if r.dir != "" {
+				wrote := changedFiles(before, r.files())
+				if len(wrote) > 0 { // what the transport has stored now
+					rtClean = map[string][]byte{}
+					for _, f := range wrote {
+						if b, e := os.ReadFile(f); e == nil {
+							rtClean[f] = b
+						}
+					}
+				}
+				if op.Op == "rt_store" && sc.Backend == "fsenc" {
+					ev["plain"] = plainOnDisk(wrote, r.vals[op.V])
+				}
 			}
 		case "api_get", "api_del":
 			method := http.MethodGet
